@@ -348,8 +348,8 @@ static void validate_response(struct sim *s, struct exchange *ex, const uint8_t 
 						ok = false;
 						continue;
 					}
-					if (ix < 0) { /* cannot happen: every PDU is built from the universe */
-						ok = false;
+					if (ix < 0) { /* a record outside the model universe (fuzzed field values) */
+						ex->content_unknown = true;
 						continue;
 					}
 					if (q[8] == 1) {
@@ -385,7 +385,7 @@ static void validate_response(struct sim *s, struct exchange *ex, const uint8_t 
 					continue;
 				}
 				if (ix < 0) {
-					ok = false;
+					ex->content_unknown = true;
 					continue;
 				}
 				if (q[2] == 1) {
@@ -875,7 +875,15 @@ void sim_answer_query(struct sim *s, uint8_t qtype, uint8_t qver, uint16_t qsess
 		s->peer_closed = true;
 		goto done;
 	}
-	if (pl.override == AO_CACHE_RESET) {
+	if (pl.override == AO_RAW && s->cfg.rawgen) {
+		static uint8_t rawbuf[70000];
+		size_t n = s->cfg.rawgen(s, rawbuf, sizeof(rawbuf), s->cfg.fuzz_seed, (int)s->queries);
+
+		pl_push(&l, rawbuf, (unsigned int)n);
+		ex->has_response = true;
+		silent = true;
+		close_after = s->cfg.raw_close_after;
+	} else if (pl.override == AO_CACHE_RESET) {
 		pl_push(&l, tmp, (unsigned int)pdu_cache_reset(tmp, av));
 	} else if (pl.override == AO_ERR_REPORT || c->no_data) {
 		uint8_t q[16];
@@ -944,6 +952,10 @@ void sim_answer_query(struct sim *s, uint8_t qtype, uint8_t qver, uint16_t qsess
 				} else {
 					n = pdu_prefix(tmp, av, &s->u->p[ord[i]], bs_has(&cp, ord[i]) ? 1 : 0);
 				}
+				/* the must-be-zero byte is not always zero on the wire; a client tolerates that, and an Error
+				 * Report must still echo the PDU as it was received */
+				if (rndp(&s->rng, 1, 6))
+					tmp[tmp[1] == 9 ? 3 : 11] = (uint8_t)(1 + rndn(&s->rng, 255));
 				pl_push(&l, tmp, (unsigned int)n);
 			}
 			free(ord);
@@ -951,7 +963,7 @@ void sim_answer_query(struct sim *s, uint8_t qtype, uint8_t qver, uint16_t qsess
 		pl_push(&l, tmp, (unsigned int)pdu_eod(tmp, av, c->session, c->serial, c->eod_refresh, c->eod_retry, c->eod_expire));
 		ex->has_response = true;
 		if (qtype == 2 && s->on_reset_answer)
-			s->on_reset_answer();
+			s->on_reset_answer(s);
 		for (int i = 0; i < pl.churn_first; i++) {
 			struct xplan ch = pl;
 
